@@ -660,3 +660,50 @@ class NewTransaction(MvccSpec):
 
 
 SPECS.append(NewTransaction)
+
+
+class InstanceStore(MvccSpec):
+    """MVCCAdapterInstance.store / storeBlob: the record goes to the storage and its oid joins the set whose members
+    tpc_finish hands to the other connections as invalidations (a blob revision is a revision like any other:
+    C13 "no other connection reads the old bytes after its next boundary")."""
+    func = 'ZODB.mvccadapter:MVCCAdapterInstance.store'
+    props = ('C02',)
+    method = 'store'
+
+    def setup(self, c, case=None):
+        me, lock, inv = self.mk_instance(c, 'committer')
+        mod = demostorage.new_set(c, '_modified')
+        c.obj(me).f['_modified'] = mod
+        c.ghost['st'] = {'me': me, 'mod': mod}
+        a = {'self': me, 'oid': c.fresh_bytes(8, 'oid'), 'serial': c.fresh_bytes(8, 'serial'),
+             'data': c.fresh_opaque('data'), 'version': VStr(''), 'transaction': c.fresh_opaque('transaction')}
+        if self.method == 'storeBlob':
+            a['blobfilename'] = c.fresh_opaque('blobfilename')
+        return a
+
+    def modifies(self, c, E):
+        return {(c.ghost['st']['mod'].id, 'dom')}
+
+    def outcomes(self, c, E):
+        g = c.ghost['st']
+        d0 = c.obj(g['mod']).f['dom']
+        oid = bytes_num(c, E['oid'])
+
+        def post(c, E, r):
+            m = c.obj(g['me']).f['_modified']
+            same = isinstance(m, VRef) and m.id == g['mod'].id
+            calls = [e for e in c.events if e[0] == 'storage-call' and e[1] == self.method]
+            return [('record-handed-to-the-storage-once', len(calls) == 1),
+                    ('oid-joins-the-set-invalidated-at-finish',
+                     z3.BoolVal(False) if not same else All(['oid'], lambda q: z3.Select(c.obj(m).f['dom'], q) == z3.Or(
+                         z3.Select(d0, q), q == oid)))]
+        return [Outcome('ok', post=post)]
+
+
+class InstanceStoreBlob(InstanceStore):
+    func = 'ZODB.mvccadapter:MVCCAdapterInstance.storeBlob'
+    props = ('C13', 'C02')
+    method = 'storeBlob'
+
+
+SPECS += [InstanceStore, InstanceStoreBlob]
